@@ -2618,6 +2618,19 @@ def check_serial_sign_guard(ctx, f, rule="R-GRD"):
         ctx.saw_fn(name)
         mp = MustPass(f, lambda c: False, guard_fn=lambda bd, s_, bb: guard_edges(bd, s_, bb, sign_clear), name="self.0[0] & 0x80 == 0")
         ok = mp.holds(name)
+        if not ok:
+            # the same decision taken as a value: `(carry == 0 && self.0[0] & 0x80 == 0).then_some(self)` — Some exactly when
+            # the condition holds; the condition must be a conjunction containing the sign test (every definition of the
+            # flag handed to then / then_some is either `false` or the sign test itself, reached behind the other conjuncts)
+            sy = sym_of(b)
+            for c in b.calls():
+                if b.is_cleanup(c.bb) or c.name not in ("then_some", "then") or c.krate not in ("core", "std") or not c.args:
+                    continue
+                t0 = strip_deep(sy.operand(c.args[0]))
+                defs = [strip_deep(v) for _, v in sy.defs_of_var(t0[2])] if t0[0] == "var" else [t0]
+                non_false = [d for d in defs if not (d[0] == "const" and not d[1])]
+                if non_false and all(d[0] == "bin" and d[1] in ("Eq",) and sign_clear("eq", d[2], d[3]) for d in non_false):
+                    ok = True
         ctx.ob(rule, "%s:result-stays-positive" % short(name), ok,
                "%s returns Some only while the top bit of the first octet is clear (the serial is still a positive integer "
                "of at most 20 octets)" % short(name), where=b.loc, detail=None if ok else why(f, mp, name))
